@@ -116,6 +116,8 @@ def c17_oracle(case, obs):
             children[((F.norm_ip(dst[0]), dst[1]), peer)] = l.handle
 
     for i, cmd in enumerate(case["script"]):
+        if i >= len(obs["steps"]):
+            break                     # the implementation panicked here: judge what was observed before
         o = obs["steps"][i]
         n = cmd[0]
         where = "cmd %d %s" % (i, cmd)
@@ -377,10 +379,10 @@ class Spec(PropSpec):
         return F.compare(case, obs, model, probes)
 
     def oracle(self, case, obs):
-        if obs.get("panic"):
+        if obs.get("panic") and "steps" not in obs:
             return []
         if case["mode"] == "alloc":
-            return alloc_oracle(case, obs)
+            return [] if obs.get("panic") else alloc_oracle(case, obs)
         if "steps" not in obs:
             return []
         return c17_oracle(case, obs)
